@@ -20,19 +20,27 @@ RefsDef == [f \in FilesDef |->
     [] Graph = "diamond" -> IF f = "a" THEN {"b", "c"} ELSE IF f = "b" THEN {"c"} ELSE {}
     [] Graph = "cycle"   -> IF f = "a" THEN {"b"} ELSE IF f = "b" THEN {"a"} ELSE {}]
 Up(f) == CASE f = "a" -> "A" [] f = "b" -> "B" [] f = "c" -> "C" [] f = "z" -> "Z"
-TypesDef == [f \in FilesDef |-> {Up(f) \o "Json", Up(f) \o "Def"}]
+\* where every schema has a package of its own ("own", "samebase") each file also carries a definition Base and a
+\* property mix = allOf[{"$ref": "#/$defs/Base"}, ..]: the textually identical reference with a different target in
+\* every document (in a shared package the same-named definitions would be renamed by order of arrival)
+OwnPkgs == Mapping \in {"own", "samebase"}
+TypesDef == [f \in FilesDef |-> {Up(f) \o "Json", Up(f) \o "Def"} \cup (IF OwnPkgs THEN {Up(f) \o "JsonMix"} ELSE {})]
+CommonDef == IF OwnPkgs THEN {"Base"} ELSE {}
 \* mapping modes: default (everything to one file / package), own (each id its own), sharedsame (a and b share a
 \* file and package), shareddiff (a and b share a file under different packages: must fail), pkgonly (b has a
 \* package mapping but no output mapping)
 OutDef == [f \in FilesDef |->
   CASE Mapping = "default"    -> "all/all.go"
     [] Mapping = "own"        -> "p" \o f \o "/" \o f \o ".go"
+    \* different import paths that end in the SAME element: every package is called model
+    [] Mapping = "samebase"   -> "p" \o f \o "/model/" \o f \o ".go"
     [] Mapping = "sharedsame" -> IF f \in {"a", "b"} THEN "pab/ab.go" ELSE "p" \o f \o "/" \o f \o ".go"
     [] Mapping = "shareddiff" -> IF f \in {"a", "b"} THEN "pab/ab.go" ELSE "p" \o f \o "/" \o f \o ".go"
     [] Mapping = "pkgonly"    -> IF f = "b" THEN (IF "PackageWithoutOutputLost" \in Devs THEN "" ELSE "all/all.go") ELSE "all/all.go"]
 PkgDef == [f \in FilesDef |->
   CASE Mapping = "default"    -> "all"
     [] Mapping = "own"        -> "p" \o f
+    [] Mapping = "samebase"   -> "model"
     [] Mapping = "sharedsame" -> IF f \in {"a", "b"} THEN "pab" ELSE "p" \o f
     [] Mapping = "shareddiff" -> IF f = "a" THEN "pab" ELSE IF f = "b" THEN "pother" ELSE "p" \o f
     [] Mapping = "pkgonly"    -> IF f = "b" THEN (IF "PackageWithoutOutputLost" \in Devs THEN "pb" ELSE "all") ELSE "all"]
@@ -46,8 +54,18 @@ OrdersDef == IF Tier = "quick" THEN {s \in Seqs(FilesDef) : Len(s) <= 2 \/ (Len(
 HistoryIndependent == Finished => \A f \in declared : OutOf[f] # "" =>
                         (TypesOf[f] \subseteq outs[OutOf[f]].types /\ outs[OutOf[f]].pkg = PkgOf[f])
 
+\* Go cannot build packages that import each other: where the reference graph has a cycle across packages the
+\* clause "the emitted packages build together" cannot be met by any generator and is not judged
+PkgCycle == Graph = "cycle" /\ {"a", "b"} \subseteq declared /\ OutOf["a"] # OutOf["b"] /\ PkgOf["a"] # "" /\ OutOf["a"] # "" /\ OutOf["b"] # ""
+            /\ <<OutOf["a"], PkgOf["a"]>> # <<OutOf["b"], PkgOf["b"]>> /\ Mapping \in {"own", "samebase"}
+\* deviation "SameBaseImportClash": the import alias is the last element of the import path, so a file that refers to
+\* two packages whose paths end in the same element declares the alias twice and does not compile
+ImportClash == \E f \in declared : \E g, h \in RefsOf[f] : g # h /\ PkgOf[g] = PkgOf[h] /\ OutOf[g] # OutOf[h]
+                                                          /\ OutOf[g] # OutOf[f] /\ OutOf[h] # OutOf[f]
 EmitRun == (failed \/ Finished) =>
   PrintT("RUN " \o ToJson([tag |-> Tag, graph |-> Graph, mapping |-> Mapping, dirs |-> Dirs, args |-> args, failed |-> failed,
                           declared |-> declared, outs |-> Emitted,
+                          pkgcycle |-> PkgCycle,
+                          nobuild |-> "SameBaseImportClash" \in Devs /\ ImportClash,
                           lost |-> \E f \in declared : OutOf[f] = ""]))     \* a schema routed to the empty output name
 =============================================================================
